@@ -321,7 +321,49 @@ def run_async_iter(cfg: dict) -> dict:
 
 def jobs(tier: str) -> list[dict]:
     parts = 48 if tier == "quick" else 96
-    return [{"part": p, "parts": parts, "tier": tier} for p in range(parts)] + [{"part": -1, "parts": 1, "tier": tier}] + real_tls_jobs(tier) + _thread_jobs(tier)
+    return ([{"part": p, "parts": parts, "tier": tier} for p in range(parts)] + [{"part": -1, "parts": 1, "tier": tier}] + real_tls_jobs(tier) + _thread_jobs(tier)
+            + [{"part": "send", "path": path, "parts": 1, "tier": tier} for path in SEND_PATHS])
+
+
+# blocking send_packet / send_all: the budget across partial writes and retry-interval wake-ups (the send loops of C04's harness, judged
+# here for time only: a wait that ends because the socket became writable before the retry interval elapsed must still be deducted)
+SEND_PATHS = ("send_all", "iter_sendmsg", "iter_noiov", "iter_nosendmsg", "endpoint")
+SEND_SIZES = {"quick": [(5, 5), (1, 0, 0), (2, 5)], "thorough": [(5, 5), (1, 0, 0), (2, 5), (5, 5, 5), (7, 1, 2)]}
+
+
+def run_send_job(job: dict, res: JobResult) -> None:
+    from ..core import explore
+    from . import c04
+
+    for timeout, retry in ((3.0, 1.0), (3.0, None), (0, None)):
+        for sizes in SEND_SIZES[job["tier"]]:
+            if job["path"] == "send_all" and 0 in sizes:
+                continue
+            cfg = {"path": job["path"], "timeout": timeout, "retry": retry, "sizes": list(sizes), "costed": False, "two_delays_upto": 2}
+            found: dict[str, tuple] = {}
+
+            def check(ctx: Any, obs: dict, cfg: dict = cfg, found: dict = found) -> bool:
+                res.evaluations += 1
+                bad = c04.oracle_sync(obs)
+                timing = bad is not None and any(w in bad for w in ("budget", "timeout", "spin", "block"))
+                res.outcome("send-" + obs["result"][0] if not timing else "VIOLATION:" + bad)
+                if any(ctx.choices):
+                    res.nontrivial.add(digest(("send", cfg["path"], timeout, retry, tuple(cfg["sizes"]), obs["result"], round(obs["elapsed"], 3))))
+                if timing and bad not in found:
+                    found[bad] = (ctx, obs)
+                return timing
+
+            stats = explore(lambda ctx, cfg=cfg: c04.run_sync(ctx, cfg), bound=10 ** 9, check=check, use_states=True, max_runs=60000, violation_budget=200)
+            res.transitions += stats["points"]
+            res.states += stats["states"]
+            if stats["cap_hit"]:
+                res.caps.append("send max_runs")
+            for bad, (ctx, obs) in found.items():
+                key = f"send/{cfg['path']}/{bad}"
+                if not any(v.key == key for v in res.violations):
+                    res.violations.append(Violation(key, f"{cfg['path']} chunks={cfg['sizes']} timeout={timeout} retry_interval={retry}: {obs['result']} elapsed={obs['elapsed']:.3f} "
+                                                         f"wire={obs['wire']!r} choices={ctx.choices}", {"part": "send", "cfg": cfg, "choices": list(ctx.choices)}))
+    res.samples.append({"part": "send-budget", "path": job["path"]})
 
 
 def _key(cfg: dict, bad: str) -> str:
@@ -342,6 +384,9 @@ def run_job(job: dict) -> JobResult:
 
         return c12_threads.run_job(job)
     res = JobResult()
+    if job["part"] == "send":
+        run_send_job(job, res)
+        return res
     if job["part"] == -2:
         run_real_tls_job(res)
         return res
@@ -407,6 +452,13 @@ def replay(doc: dict) -> tuple[bool, str]:
         from . import c12_threads
 
         return c12_threads.replay(doc)
+    if rp.get("part") == "send":
+        from ..core import Ctx as _Ctx
+        from . import c04
+
+        obs = c04.run_sync(_Ctx(rp["choices"]), rp["cfg"])
+        bad = c04.oracle_sync(obs)
+        return bad is not None, f"cfg={rp['cfg']}\nchoices={rp['choices']}\nresult={obs['result']} elapsed={obs['elapsed']:.3f} wire={obs['wire']!r}\noracle: {bad}"
     cfg = rp["cfg"]
     if "sched" in cfg:
         cfg["sched"] = [tuple(x) for x in cfg["sched"]]
